@@ -145,18 +145,27 @@ class Oracle:
             if t["ts"] > at:
                 return "timer %d (k%d) fired at %d ns, before its expiry time %d ns" % (tid, k, at, t["ts"])
             for other in self.pend:
-                if other != tid and other in pre_existing and tid in pre_existing and self.key(other) < self.key(tid):
+                # (`other` must have been pending before this settle: a timer set from a callback with an expiry in the past cannot
+                #  overtake the timers already detached into the running batch.  `tid` itself may be new: whatever fires while an
+                #  earlier-expiring timer that was already pending is still on the list has overtaken it.)
+                if other != tid and other in pre_existing and self.key(other) < self.key(tid):
                     return ("timer %d (k%d, ts %d) fired while timer %d (ts %d, %s) was still pending: not in (expiry time, set order) order" %
                             (tid, k, t["ts"], other, self.pend[other]["ts"], "set earlier" if self.pend[other]["ts"] == t["ts"] else "earlier expiry"))
             del self.pend[tid]
             pre_existing.discard(tid)
             kind, a1, a2 = self.kinds[k]
             acts = parts[1:]
-            want = {"p": "", "c": "c", "s": "s", "a": "s", "r": "s", "x": "sc"}[kind]
+            want = {"p": "", "c": "c", "s": "s", "a": "s", "r": "s", "x": "sc", "j": "js"}[kind]
             if "".join(a[0] for a in acts) != want:
                 return "callback k%d (kind %s) reported actions %s" % (k, kind, acts)
             if kind == "c":
                 r = self.cb_cancel(a1, int(acts[0][1:]), k)
+                if r:
+                    return r
+            elif kind == "j":
+                self.now += a1 * 1000000            # the clock moved on while the callback ran
+                at = self.now
+                r = self.add(int(acts[1][1:]), at, self.new_k("p"))
                 if r:
                     return r
             elif kind in ("s", "a", "r", "x"):
@@ -362,6 +371,14 @@ def gen_program(r, thorough):
     ops.append("timer adv %d 0" % (now[0] + horizon + 70))
     return ops
 
+
+# oracle-only programs (the Lean timer model has no clock that moves during a callback): a slow callback during which other timers
+# become overdue, ending with a zero-offset timer; the overdue ones must still fire first
+SLOW_CB = [
+    ["timer reset", "timer setid 0", "timer seta 5 0 j 3000", "timer seta 6 0 p", "timer seta 7 500000000 p", "timer seta 30 0 p", "timer adv 5 0", "timer adv 40 0"],
+    ["timer reset", "timer setid 0", "timer setr 1000 j 60000", "timer setr 2000 p", "timer setr 61000 p", "timer setr 61001 p", "timer adv 1 0", "timer adv 100 0"],
+    ["timer reset", "timer setid 0", "timer seta 2 0 j 1", "timer seta 2 1 p", "timer seta 2 1000000 p", "timer seta 2 1000001 p", "timer adv 2 0", "timer adv 3 0"],
+]
 
 FIXED = [
     # ties fire in set order; earliest first
@@ -644,6 +661,17 @@ def run(ctx):
                 ctx.violation("timer module: " + res2[1], {"stream": "timer", "ops": small, "impl_output": res2[2], "reason": res2[1], "programs_fixed": True},
                               found_input=True)
                 break
+    bad = None
+    for p_ in SLOW_CB:
+        ctx.distinct("\n".join(p_)); ctx.dist("slow_callback_programs"); ctx.count(len(p_))
+        res = oracle_alone(h, p_)
+        if res is not None and bad is None:
+            bad = (p_, res)
+    ctx.obligation("oracle", "slow callbacks (clock moves on inside a callback, then a zero-offset timer): overdue timers still fire first, in order",
+                   bad is None, bad[1][1] if bad else "")
+    if bad:
+        ctx.violation("timer module: " + bad[1][1], {"stream": "timer", "ops": bad[0][:bad[1][0] + 1], "impl_output": bad[1][2], "reason": bad[1][1],
+                                                    "programs_fixed": True}, found_input=True)
     if hs:
         sops = gen_svc_ops(r, consts, thorough)
         ctx.dist("service_ops", len(sops))
